@@ -415,6 +415,76 @@ def gen_shell(rng):
     return {"kind": "shell", "env": env, "text": text}
 
 
+FN_POOL = [("ll", "ls -l"), ("e", "echo hi"), ("gg", "git grep \"$@\""), ("w", "echo $@ done"), ("KEEP", "true"),
+           ("two", "a b; c"), ("q", "printf 'a  b'"), ("p0_ls", "ls -l"), ("A", "x")]
+FN_NAMES = ["ll", "e", "gg", "w", "KEEP", "two", "q", "p0_ls", "A", "N1", "f_1", "export", "unset", "true", "echo", "if", "done",
+            "time", "in", "select", "x1"]
+BODIES = ["ls -l", "echo hi", "git grep \"$@\"", "echo $@ done", "a b; c", "a;b", "a\nb", "printf 'a  b'", "'x y' z", "a=1 b",
+          "ls }", "}", "a ; }", "if", "a; if", "a if", "do", "time", "in x", "", " ", "a ;", "a;;b", "echo \"x\"", "echo $A",
+          "echo ${A}", "a | b", "a > f", "(a)", "a & b", "x\ty", "-l", "a 'b", "ls -l /my:dir/x=1,y@z%^+"]
+
+
+def gen_fndef(rng, name=None, body=None):
+    name = name or rng.choice(FN_NAMES)
+    body = rng.choice(BODIES) if body is None else body
+    r = rng.random()
+    if r < 0.6:
+        return "%s() { %s ; }" % (name, body)           # the emitter's shape
+    return rng.choice(["%s(){ %s ; }", "%s () { %s ; }", "%s()\n{ %s ; }", "%s() {%s ; }", "%s() { %s; }", "%s() { %s ;}",
+                       "%s() { %s }", "%s() { %s\n}", "%s()\t{\t%s ;\t}", "%s( ) { %s ; }", "'%s'() { %s ; }",
+                       "%s() { %s ; } x", "%s() { %s ; } ;", "x %s() { %s ; }", "%s() %s", "%s() { %s ; }}"]) % (name, body)
+
+
+def gen_echo(rng):
+    r = rng.random()
+    if r < 0.5:                                          # what -n prints
+        k = rng.choice(NAMES)
+        v = gen_value(rng, claim=rng.random() < 0.9)
+        q = "'%s'" % v if (v and not in_safe(v)) else v
+        return rng.choice(["echo \"export %s=%s\"" % (k, q), "echo \"unset %s\"" % k, "echo \"unset -f %s\"" % k,
+                           "echo \"%s\"" % gen_fndef(rng)])
+    return rng.choice(["echo", "echo a b", "echo a  b", "echo 'a  b' c", "echo \"x\"y'z'", "echo -n x", "echo -e x", "echo - x",
+                       "echo x -n", "echo \"\"", "echo ''", "echo \"a;b\nc\"", "echo \"a'b\"", "echo 'a\"b'", "echo \"$A\"",
+                       "echo \"a`b\"", "echo \"a\\b\"", "echo 'a\\nb'", "echo \"a", "echo \"(x) <y> |z& ;\"", "echo \"!\"",
+                       "echo a\"b c\"d", "'echo' x", "echo \"a\tb\"", "echo x=1", "echo \"#x\"", "echo \"*\""])
+
+
+def gen_shellf(rng):
+    """A command text with function definitions, echo lines, double quotes and `false`, started with some shell
+    functions already defined."""
+    env = gen_env(rng, rng.randint(0, 4))
+    names = [k for k, _ in env] + ["N1", "N2"]
+    funcs0 = [[k, v] for k, v in rng.sample(FN_POOL, rng.randint(0, 3)) if "$" not in v and "'" not in v]
+    cmds = []
+    for _ in range(rng.randint(1, 5)):
+        r = rng.random()
+        k = rng.choice(names)
+        if r < 0.35:
+            if rng.random() < 0.6:
+                n, b = rng.choice(FN_POOL)
+                cmds.append(gen_fndef(rng, n if rng.random() < 0.8 else None, b if rng.random() < 0.8 else None))
+            else:
+                cmds.append(gen_fndef(rng))
+        elif r < 0.55:
+            cmds.append(gen_echo(rng))
+        elif r < 0.67:
+            v = gen_value(rng)
+            cmds.append("export %s=%s" % (k, "'%s'" % v if (v and not in_safe(v)) else v))
+        elif r < 0.75:
+            cmds.append("unset %s" % k)
+        elif r < 0.87:
+            cmds.append("unset -f %s" % " ".join(rng.choice(FN_NAMES[:11]) for _ in range(rng.randint(1, 2))))
+        elif r < 0.93:
+            cmds.append(rng.choice(["false", "true", ":", "false x", "'false'"]))
+        elif r < 0.96:
+            cmds.append("export %s=\"%s\"" % (k, gen_value(rng, claim=rng.random() < 0.8)))
+        else:
+            cmds.append(rng.choice(["ll", "e", "export A=\"a b\"c'd e'", "\"export\" A=1", "unset \"A\"", "A=\"x\"", "\"", "\"\"", "unset -f \"ll\""]))
+    sep = rng.choice([";\n", ";\n", ";\n", "\n", ";", " ; "])
+    text = sep.join(cmds) + rng.choice(["", "\n", ";", ";\n"])
+    return {"kind": "shellf", "env": env, "funcs": funcs0, "text": text}
+
+
 def in_safe(v):
     return all(c in SAFE for c in v)
 
@@ -450,27 +520,79 @@ def shell_cwd():
     return _CWD
 
 
-def run_shells(env_pairs, text, how="c", scratch=None):
-    """Evaluate text in dash and bash started with exactly env_pairs; returns {shell: env dict | None}.
+FN_MARK = b"\0\0C05-FN-FOLLOWS\0"
+IDENT = re.compile(r"^[A-Za-z_][A-Za-z0-9_]*$")
+
+
+def _tail(fn_names):
+    t = "\nc05status=$?\nprintf '\\0\\0C05-ENV-FOLLOWS\\0'\n/usr/bin/env -0\nprintf '\\0\\0C05-FN-FOLLOWS\\0'\n" \
+        "printf 'status=%s\\n\\0' \"$c05status\"\n"
+    for n in fn_names:
+        if IDENT.match(n):
+            t += "printf 'fn=%s\\n' " + n + "; type " + n + " 2>/dev/null; printf '\\0'\n"
+    return t
+
+
+def _parse_fn(blob, shell):
+    """status and {name: True | canonical body text (bash)} from the part after FN_MARK"""
+    status, fns = None, {}
+    for item in blob.split(b"\0"):
+        item = item.decode("utf-8", "surrogateescape")
+        if item.startswith("status="):
+            status = int(item[7:].strip() or -1)
+        elif item.startswith("fn="):
+            lines = item.split("\n")
+            name = lines[0][3:]
+            if len(lines) > 1 and "function" in lines[1]:
+                body = True
+                if shell == "bash" and len(lines) >= 5 and lines[3].strip() == "{":
+                    i = len(lines) - 1
+                    while i > 3 and lines[i].strip() != "}":
+                        i -= 1
+                    body = "; ".join(l[4:].rstrip(";") if l.startswith("    ") else l.rstrip(";") for l in lines[4:i])
+                fns[name] = body
+    return status, fns
+
+
+def run_shells_full(env_pairs, text, how="c", scratch=None, funcs0=(), fn_names=()):
+    """Evaluate text in dash and bash started with exactly env_pairs and the shell functions funcs0 ([name, body text]);
+    returns {shell: {"env": dict, "out": text written to stdout, "status": $?, "fns": {name: body|True}} | None}.
     how='c': `sh -c text`; how='source': text written to a file that the shell sources with `.`"""
     env = {k: v for k, v in env_pairs}
     res = {}
     cwd = shell_cwd()
+    pre = "".join("%s() { %s ; }\n" % (k, v) for k, v in funcs0)
+    tail = _tail(list(fn_names))
     for name, argv in SHELLS:
         if how == "source":
             path = os.path.join(scratch, "emitted.sh")
             with open(path, "w", encoding="utf-8", errors="surrogateescape") as f:
                 f.write(text)
-            cmd = argv + ["-c", '. "$1"' + TAIL, name, path]
+            cmd = argv + ["-c", pre + '. "$1"' + tail, name, path]
         else:
-            cmd = argv + ["-c", text + TAIL]
+            cmd = argv + ["-c", pre + text + tail]
         try:
             p = subprocess.run(cmd, env=env, stdout=subprocess.PIPE, stderr=subprocess.DEVNULL, stdin=subprocess.DEVNULL,
                                timeout=20, cwd=cwd)
-            res[name] = parse_env0(p.stdout)
+            e = parse_env0(p.stdout.split(FN_MARK)[0]) if FN_MARK in p.stdout else None
+            if e is None:
+                res[name] = None
+            else:
+                status, fns = _parse_fn(p.stdout.split(FN_MARK, 1)[1], name)
+                res[name] = {"env": e, "out": p.stdout[:p.stdout.rfind(MARK)].decode("utf-8", "surrogateescape"),
+                             "status": status, "fns": fns}
         except (subprocess.TimeoutExpired, ValueError, OSError) as e:
             res[name] = "ERR:" + type(e).__name__
     return res
+
+
+def envs_of(full):
+    """the environments only (what the delta oracle looks at)"""
+    return {k: (v["env"] if isinstance(v, dict) else v) for k, v in full.items()}
+
+
+def run_shells(env_pairs, text, how="c", scratch=None):
+    return envs_of(run_shells_full(env_pairs, text, how=how, scratch=scratch))
 
 
 def visible(env_pairs):
@@ -526,7 +648,22 @@ def impl_emit(case):
             cmds = app.setup("eups" if o["isEups"] else "prod", eupsenv=E, fwd=o["fwd"])
     except Exception as ex:  # noqa
         return {"exc": type(ex).__name__}
-    return {"cmds": cmds, "old": [list(x) for x in E.oldEnviron.items()], "cur": [list(x) for x in os.environ.items()]}
+    out = {"cmds": cmds, "old": [list(x) for x in E.oldEnviron.items()], "cur": [list(x) for x in os.environ.items()]}
+    if o["noaction"]:
+        # the same request without -n: what the -n text claims would be done
+        saved_old = dict(E.oldEnviron)
+        _set_environ(case["old"])
+        E.oldEnviron = os.environ.copy()
+        for k in case.get("forgotten", []):
+            E.oldEnviron[k] = None
+        E.noaction = False
+        try:
+            with _quiet(), contextlib.redirect_stdout(io.StringIO()):
+                out["plain_cmds"] = app.setup("eups" if o["isEups"] else "prod", eupsenv=E, fwd=o["fwd"])
+        except Exception as ex:  # noqa
+            out["plain_cmds"] = None
+        E.noaction = True
+    return out
 
 
 def impl_acts(case):
@@ -620,6 +757,7 @@ def impl_stack(case):
         if r[0] != "ok":
             return {"declare": r[:3], "steps": []}
         steps = []
+        fenv = {}
         for req in case["requests"]:
             if req.get("local"):
                 pd = [p for p in case["products"] if p["name"] == req["product"]][0]
@@ -630,12 +768,21 @@ def impl_stack(case):
                 break
             st = r[1]
             text = ";\n".join(st["cmds"]) + "\n"
-            st["shells"] = run_shells(env, text, how="source", scratch=root)
+            f0 = [[k, v] for k, v in fenv.items()]
+            probed = sorted(set(list(fenv) + [k for k, _ in st["aliases"]] + [k for k, _ in st["oldAliases"]]))
+            st["shellsF"] = run_shells_full(env, text, how="source", scratch=root, funcs0=f0, fn_names=probed)
+            st["shells"] = envs_of(st["shellsF"])
+            st["funcs0"], st["probed"] = f0, probed
             st["base"] = env
             steps.append(st)
             if st["cmds"] == ["false"]:
                 continue
             env = st["cur"]                 # the next command starts from the environment eups computed
+            for k, v in st["aliases"]:      # ... and with the shell functions the text defined
+                fenv[k] = " ".join(v.split()) if simple_body(v) else "true"
+            for k, _ in st["oldAliases"]:
+                if k not in dict(st["aliases"]):
+                    fenv.pop(k, None)
             if "EUPS_PATH" not in dict(env):
                 break                       # unsetup eups: nothing can follow
         os.environ.clear()
@@ -661,13 +808,46 @@ def impl_case(case):
     kind = case["kind"]
     if kind == "shell":
         return {"shells": run_shells(case["env"], case["text"])}
+    if kind == "shellf":
+        return {"shellsF": run_shells_full(case["env"], case["text"], funcs0=case["funcs"],
+                                           fn_names=sorted(set(FN_NAMES + [k for k, _ in case["funcs"]])))}
     if kind == "stack":
         return impl_stack(case)
     out = impl_emit(case) if kind == "emit" else impl_acts(case)
     if "cmds" in out and case["opts"]["shell"] == "sh" and shell_safe(case, out):
         base = case["old"] if kind == "emit" else case["base"]
-        out["shells"] = run_shells(base, ";\n".join(out["cmds"]) + "\n", how="source", scratch=_E._c05root)
+        f0 = funcs0_of(case)
+        probed = sorted(set([k for k, _ in f0] + [k for k, _ in out.get("aliases", case.get("aliases", []))] +
+                            [k for k, _ in out.get("oldAliases", case.get("oldAliases", []))]))
+        out["shellsF"] = run_shells_full(base, ";\n".join(out["cmds"]) + "\n", how="source", scratch=_E._c05root,
+                                         funcs0=f0, fn_names=probed)
+        out["shells"] = envs_of(out["shellsF"])
+        out["funcs0"], out["probed"] = f0, probed
     return out
+
+
+def simple_body(v):
+    """an alias value that can be handed to the shells as a predefined function and compared after normalisation"""
+    return bool(v) and bool(v.strip()) and all(c in SAFE + " " for c in v) and v.split()[0] not in RESERVED
+
+
+RESERVED = ["if", "then", "else", "elif", "fi", "case", "esac", "for", "while", "until", "do", "done", "in", "function",
+            "select", "time", "coproc"]
+
+
+def funcs0_of(case):
+    """The shell functions the caller's shell holds before it sources the text: the aliases eups believes to exist
+    (oldAliases); `acts` cases start with the aliases their unsetup actions will remove."""
+    if case["kind"] == "emit":
+        return [[k, " ".join(v.split()) if (v and simple_body(v)) else "true"] for k, v in case["oldAliases"] if IDENT.match(k)]
+    if case["kind"] == "acts":
+        seen, out = set(), []
+        for a in case["acts"]:
+            if a["op"] == "alias" and not a["fwd"] and a["k"] not in seen:
+                seen.add(a["k"])
+                out.append([a["k"], "true"])
+        return out
+    return []
 
 
 def shell_safe(case, out):
@@ -717,6 +897,8 @@ def model_request(case):
         return {"m": "c05", "op": "acts", "base": case["base"], "acts": acts, "pinned": False, "opts": case["opts"]}
     if k == "shell":
         return {"m": "c05", "op": "sheval", "env": case["env"], "text": case["text"]}
+    if k == "shellf":
+        return {"m": "c05", "op": "shevalf", "env": case["env"], "funcs": case["funcs"], "text": case["text"]}
     raise ValueError(k)
 
 
@@ -773,6 +955,72 @@ def check_delta(ctx, case, inp, base, old_after, computed, shells, is_eups, mode
                      note="%s: {var: [after sourcing, computed]} = %s" % (sh, common.jdump(_subst(diff, root))[:600]))
 
 
+def check_functions(ctx, inp, funcs0, aliases, old_aliases, full, noaction, impl_out, root=None):
+    """Oracle (ii), no model: after sourcing, the shell holds exactly the functions it had, plus the aliases eups set,
+    minus the aliases eups removed (bash: with the alias' text as body, up to blanks); under -n nothing changes.
+    Only for alias values that are plain command lines (words over the safe characters)."""
+    if full is None or not (aliases or old_aliases or funcs0):
+        return
+    if not all(IDENT.match(k) and k not in RESERVED + ["export", "unset", "true", "false", "echo"] for k, _ in aliases):
+        return
+    if not all(simple_body(v) for _, v in aliases):
+        ctx.hist("functions:outside-claim")
+        return
+    exp = dict((k, v) for k, v in funcs0)
+    if not noaction:
+        od = dict((k, v) for k, v in old_aliases)
+        for k, v in aliases:
+            if not (k in od and od[k] == v):
+                exp[k] = " ".join(v.split())
+        for k, _ in old_aliases:
+            if k not in dict(aliases):
+                exp.pop(k, None)
+    ctx.hist("functions:in-claim")
+    if exp != dict((k, v) for k, v in funcs0):
+        ctx.hist("functions:changed")
+    for sh, got in full.items():
+        if not isinstance(got, dict):
+            continue                    # reported by sourced_env_equals_computed
+        bad = sorted(k for k in set(exp) | set(got["fns"])
+                     if (k in exp) != (k in got["fns"]) or (k in exp and isinstance(got["fns"][k], str) and got["fns"][k] != exp[k]))
+        if bad:
+            ctx.fail("sourced_functions_equal_aliases", inp, impl_out, None,
+                     note="%s: functions %s: after sourcing %s, expected %s" % (sh, bad, common.jdump(got["fns"])[:300], common.jdump(exp)[:300]))
+
+
+def check_noaction(ctx, inp, base, funcs0, full, impl_out, plain=None):
+    """Oracle (ii): sourcing what `setup -n` prints changes nothing in the shell and succeeds."""
+    if full is None:
+        return
+    if not all(IDENT.match(k) and not SPECIAL.match(k) for k, _ in base):
+        return
+    ctx.hist("noaction:sourced")
+    for sh, got in full.items():
+        if not isinstance(got, dict) or got["env"] != visible(base) or got["status"] != 0:
+            ctx.fail("noaction_text_changes_nothing", inp, impl_out, None,
+                     note="%s: after sourcing the -n text: %s" % (sh, common.jdump(got)[:400]))
+    if plain is not None and not inp.get("aliases"):
+        # ... and prints the commands the same request prints without -n (SETUP_* variables hidden unless -vv)
+        exp = [c for c in plain if inp["opts"]["verbose2"] or "SETUP_" not in c.split("=")[0]]
+        ctx.hist("noaction:echo-compared")
+        for sh, got in full.items():
+            if isinstance(got, dict) and got["out"] != "".join(c + "\n" for c in exp):
+                ctx.fail("noaction_prints_the_commands", inp, impl_out, None,
+                         note="%s: printed %s, the request without -n emits %s" % (sh, common.jdump(got["out"])[:300], common.jdump(exp)[:300]))
+
+
+def check_failure(ctx, inp, base, funcs0, full, impl_out, root=None):
+    """Oracle (ii): a failed request prints `false`: the environment is untouched and the caller sees a failure."""
+    if full is None:
+        return
+    ctx.hist("failure:sourced")
+    for sh, got in full.items():
+        if not isinstance(got, dict) or got["env"] != visible(base) or got["status"] == 0 or \
+                got["fns"] != dict((k, v) if sh == "bash" else (k, True) for k, v in funcs0):
+            ctx.fail("failed_request_leaves_shell_untouched_and_reports_failure", inp, impl_out, None,
+                     note="%s: after sourcing: %s" % (sh, common.jdump(_subst(got, root))[:400]))
+
+
 def compare_shell_model(ctx, inp, shells, ans, what, root=None):
     """Oracle (i) for the shell model: when the text is in the fragment both shells must agree with shEval."""
     if shells is None:
@@ -793,9 +1041,46 @@ def compare_shell_model(ctx, inp, shells, ans, what, root=None):
     return True
 
 
+def compare_shellf_model(ctx, inp, full, ans, what, probed, root=None):
+    """Oracle (i) for the second layer of the shell model: environment, defined functions among `probed` (bash: their
+    bodies too), echoed text and exit status of both shells = shEvalF's whenever the text is in the fragment."""
+    if full is None:
+        return None
+    if "bad-op" in ans:
+        ctx.disagree("shEvalF", inp, full, ans)
+        return None
+    if ans.get("none"):
+        ctx.hist(what + ":outside-fragment")
+        return False
+    ctx.hist(what + ":in-fragment")
+    menv, mf = visible(ans["env"]), dict((k, v) for k, v in ans["funcs"])
+    mout = "".join(l + "\n" for l in ans["out"])
+    for sh, got in full.items():
+        bad = None
+        if not isinstance(got, dict):
+            bad = "the real shell rejects the text"
+        elif got["env"] != menv:
+            bad = "environment"
+        elif got["out"] != mout:
+            bad = "echoed text"
+        elif got["status"] != ans["status"]:
+            bad = "exit status"
+        else:
+            for k in probed:
+                if (k in got["fns"]) != (k in mf):
+                    bad = "function %s defined" % k
+                elif k in mf and isinstance(got["fns"][k], str) and got["fns"][k] != mf[k]:
+                    bad = "body of function %s" % k
+        if bad:
+            ctx.disagree("shEvalF_vs_" + sh, inp, _subst(got, root), _subst(ans, root),
+                         note="text evaluated by the real shell differs from shEvalF: " + bad)
+            break
+    return True
+
+
 # ---- evaluation ------------------------------------------------------------------------------------
 
-NW = 6
+NW = 4
 
 
 def evaluate(ctx, cases):
@@ -828,13 +1113,14 @@ def evaluate(ctx, cases):
     for i, (c, io_) in enumerate(zip(cases, impl)):
         if c["kind"] in ("emit", "acts") and io_.get("shells") is not None:
             where2.append((i, None))
-            reqs2.append({"m": "c05", "op": "sheval", "env": c["old"] if c["kind"] == "emit" else c["base"],
-                          "text": ";\n".join(io_["cmds"]) + "\n"})
+            reqs2.append({"m": "c05", "op": "shevalf", "env": c["old"] if c["kind"] == "emit" else c["base"],
+                          "funcs": io_["funcs0"], "text": ";\n".join(io_["cmds"]) + "\n"})
         elif c["kind"] == "stack":
             for j, st in enumerate(io_["steps"]):
                 if "cmds" in st:
                     where2.append((i, j))
-                    reqs2.append({"m": "c05", "op": "sheval", "env": st["base"], "text": ";\n".join(st["cmds"]) + "\n"})
+                    reqs2.append({"m": "c05", "op": "shevalf", "env": st["base"], "funcs": st["funcs0"],
+                                  "text": ";\n".join(st["cmds"]) + "\n"})
     sheval = dict(zip(where2, ctx.lean.ask_many(reqs2)))
 
     for i, (c, io_) in enumerate(zip(cases, impl)):
@@ -845,6 +1131,20 @@ def evaluate(ctx, cases):
             ans = model[(i, None)]
             infrag = compare_shell_model(ctx, inp, io_["shells"], ans, "text")
             changed = bool(infrag) and visible(ans["env"]) != visible(c["env"])
+            ctx.case(key=c, nontrivial=changed, sample={"input": c, "impl": io_} if ctx.evaluations % 499 == 0 else None)
+            continue
+        if kind == "shellf":
+            ans = model[(i, None)]
+            probed = sorted(set(FN_NAMES + [k for k, _ in c["funcs"]]))
+            infrag = compare_shellf_model(ctx, inp, io_["shellsF"], ans, "textF", probed)
+            if infrag:
+                if ans["funcs"] != c["funcs"]:
+                    ctx.hist("textF:functions-changed")
+                if ans["out"]:
+                    ctx.hist("textF:echo")
+                if ans["status"]:
+                    ctx.hist("textF:status-nonzero")
+            changed = bool(infrag) and (visible(ans["env"]) != visible(c["env"]) or ans["funcs"] != c["funcs"] or bool(ans["out"]))
             ctx.case(key=c, nontrivial=changed, sample={"input": c, "impl": io_} if ctx.evaluations % 499 == 0 else None)
             continue
         if kind == "stack":
@@ -864,6 +1164,9 @@ def evaluate(ctx, cases):
                     continue
                 if st["cmds"] == ["false"]:
                     ctx.hist("stack:refused")
+                    sub = {"kind": "stack", "products": c["products"], "requests": c["requests"][:j + 1], "extra": c["extra"]}
+                    compare_shellf_model(ctx, sub, st["shellsF"], sheval[(i, j)], "emitted", st["probed"], root=io_["root"])
+                    check_failure(ctx, sub, st["base"], st["funcs0"], st["shellsF"], _subst(st["cmds"], io_["root"]), root=io_["root"])
                     continue
                 any_cmd = any_cmd or bool(st["cmds"])
                 m = model.get((i, j))
@@ -871,7 +1174,10 @@ def evaluate(ctx, cases):
                 root = io_["root"]
                 if m is None or m.get("cmds") != st["cmds"]:
                     ctx.disagree("emitted_commands", sub, _subst(st["cmds"], root), _subst(m, root))
-                compare_shell_model(ctx, sub, st["shells"], sheval[(i, j)], "emitted", root=root)
+                compare_shellf_model(ctx, sub, st["shellsF"], sheval[(i, j)], "emitted", st["probed"], root=root)
+                if claim_of(st["base"], st["old"], st["cur"]):
+                    check_functions(ctx, sub, st["funcs0"], st["aliases"], st["oldAliases"], st["shellsF"], False,
+                                    _subst(st["cmds"], root), root=root)
                 if m is not None and "final" in m and m["final"] != st["cur"]:
                     ctx.disagree("computed_environment", sub, _subst(st["cur"], root), _subst(m["final"], root))
                 check_delta(ctx, c, sub, st["base"], st["old"], st["cur"], st["shells"], req["product"] == "eups",
@@ -920,7 +1226,12 @@ def evaluate(ctx, cases):
             ctx.disagree("emitted_commands" if mo["cmds"] != io_cmp["cmds"] else "environment_bookkeeping", inp, io_cmp, mo)
         if io_.get("shells") is not None:
             base = c["old"] if kind == "emit" else c["base"]
-            compare_shell_model(ctx, inp, io_["shells"], sheval[(i, None)], "emitted")
+            compare_shellf_model(ctx, inp, io_["shellsF"], sheval[(i, None)], "emitted", io_["probed"])
+            if claim_of(base, io_["old"], io_["cur"]):
+                check_functions(ctx, inp, io_["funcs0"], io_.get("aliases", c.get("aliases", [])),
+                                io_.get("oldAliases", c.get("oldAliases", [])), io_["shellsF"], o["noaction"], io_cmp)
+                if o["noaction"]:
+                    check_noaction(ctx, inp, base, io_["funcs0"], io_["shellsF"], io_cmp, plain=io_.get("plain_cmds"))
             if not o["noaction"]:
                 check_delta(ctx, c, inp, base, io_["old"], io_["cur"], io_["shells"], o["isEups"], mo, io_cmp,
                             alias_names=[k for k, _ in io_.get("aliases", c.get("aliases", []))] +
@@ -941,7 +1252,7 @@ def corpus_cases():
 
 
 def gen_case(rng, kind):
-    return {"emit": gen_emit, "acts": gen_acts, "stack": gen_stack, "shell": gen_shell}[kind](rng)
+    return {"emit": gen_emit, "acts": gen_acts, "stack": gen_stack, "shell": gen_shell, "shellf": gen_shellf}[kind](rng)
 
 
 ENUM_ALPHA = "a/= \t\n<>|&;()'"
@@ -970,7 +1281,7 @@ def run(ctx):
     ctx.hist("enumerated-values", sum(len(c["new"]) - 1 for c in en))
     for i in range(0, len(en), 600):
         evaluate(ctx, en[i:i + 600])
-    budget = [("emit", ctx.n(2400, 60000)), ("acts", ctx.n(1200, 30000)), ("shell", ctx.n(3000, 100000)),
+    budget = [("emit", ctx.n(2400, 60000)), ("acts", ctx.n(1200, 30000)), ("shell", ctx.n(3000, 100000)), ("shellf", ctx.n(1500, 60000)),
               ("stack", ctx.n(200, 4000))]
     for kind, n in budget:
         done = 0
